@@ -47,13 +47,22 @@ fn main() {
         json!({"names": ["d", "a", "c", "b", "z", "k", "e", "aa", "ab"], "items": [{"b": "a"}, {"b": "q"}, {"b": "ab"}], "lim": 0, "long": [0, 1, 2, 3, 4, 5, 6, 7, 8, 9]}),
     ];
     let plain = ["$..a", "$.a[?@.b == 'x'].c[*]", "$[?@.a >= 1].b", "$..[?@ > $.lim]", "$[0,2]['a','b']", "$..*", "$.b.list[::-1]", "$[?count(@.*) > 1]", "$[?length(@.b) == 2]", "$.a[-1].c[?@ == null]", "$.items[?in(@.b, $.names)]", "$.items[?nin(@.b, $.names)].b", "$.long[-1]", "$.long[?@ > $.lim]", "$..[?subset_of(@, $.names)]"];
+    // a long query text next to short ones: parser state that is process-wide (limits, interning) is
+    // written by one thread's parse and read by another's
+    let long_union = format!("$.long[{}]", (0..30).map(|i| (i % 10).to_string()).collect::<Vec<_>>().join(","));
     let regex = ["$..[?match(@, 'a.*')]", "$..[?search(@.b, 'a')]"];
     let doc = Arc::new(docs[(splitmix(&mut seed) % 3) as usize].clone());
     let n_q = 2;
     let mut qs: Vec<(String, Arc<JpQuery>)> = vec![];
     for i in 0..n_q {
-        let q = if with_regex && i == 0 { regex[(splitmix(&mut seed) % 2) as usize] } else { plain[(splitmix(&mut seed) % plain.len() as u64) as usize] };
-        qs.push((q.to_string(), Arc::new(parse_json_path(q).expect("valid query"))));
+        let q: String = if with_regex && i == 0 {
+            regex[(splitmix(&mut seed) % 2) as usize].to_string()
+        } else if i == 1 && splitmix(&mut seed) % 8 == 0 {
+            long_union.clone()
+        } else {
+            plain[(splitmix(&mut seed) % plain.len() as u64) as usize].to_string()
+        };
+        qs.push((q.clone(), Arc::new(parse_json_path(&q).expect("valid query"))));
     }
     let before = doc.to_string();
     // expectations, single-threaded, before any sharing
